@@ -358,6 +358,15 @@ pub struct ScriptCfg {
     /// 0 uniform, 1 oldest first, 2 newest first
     pub order_bias: u8,
     pub stream_items: u32,
+    /// one action per settle even on a direct host (needed when hosts are compared step by step)
+    #[serde(default)]
+    pub force_batch1: bool,
+    /// duplicate responses over the bridge (known finding S6 territory)
+    #[serde(default)]
+    pub bridge_dups: bool,
+    /// abort a directly held command before its first poll (no core can do that)
+    #[serde(default)]
+    pub abort_before_poll: bool,
 }
 
 #[derive(Clone, Debug, Serialize, Deserialize)]
@@ -368,6 +377,15 @@ pub struct Scenario {
     pub buggify: bool,
     /// index of the first step of the fault-free drain phase
     pub drain_from: usize,
+    /// after the script, the driver itself resolves / drops whatever the reference says is still outstanding
+    #[serde(default)]
+    pub adaptive_drain: bool,
+    /// a directly held command is not polled after steps without a call either (as a core would not)
+    #[serde(default)]
+    pub defer_drops: bool,
+    /// send duplicate responses for consumed one-shots over the bridge
+    #[serde(default)]
+    pub bridge_dups: bool,
 }
 
 pub struct ScriptOut {
@@ -383,7 +401,7 @@ pub fn gen_script(rng: &mut Rng, programs: Vec<Cmd>, host: HostSel, sc: &ScriptC
     m.g.legacy_supported = host.supports_legacy();
     let can_drop = sc.drops && !host.is_bridge();
     let races = programs.iter().any(Cmd::has_races);
-    let max_batch = if races || !host.is_direct() { 1 } else { sc.max_batch.max(1) };
+    let max_batch = if races || !host.is_direct() || sc.force_batch1 { 1 } else { sc.max_batch.max(1) };
     let mut programs: std::collections::VecDeque<Cmd> = programs.into();
     let mut steps: Vec<Vec<Action>> = vec![];
     let mut next_v: u64 = 1_000_000;
@@ -392,9 +410,22 @@ pub fn gen_script(rng: &mut Rng, programs: Vec<Cmd>, host: HostSel, sc: &ScriptC
     let mut dropped_all = false;
     let mut idle_steps = 0;
 
+    // On a core a drop is not a call: what it enables runs in the next call, together with what
+    // that call itself enables. For programs with races that would be two actions in one settle,
+    // so a Noop call flushes the deferred work first.
+    let deferring = !host.is_direct() || sc.force_batch1;
+    let mut pending_flush = false;
     for _ in 0..sc.max_steps {
         if idle_steps > 2 {
             break;
+        }
+        if pending_flush {
+            pending_flush = false;
+            let a = Action::Event(Event::Noop);
+            apply_to_model(&mut m, &a);
+            steps.push(vec![a]);
+            m.settle(&none);
+            continue;
         }
         let bsz = rng.range(1, u64::from(max_batch)) as usize;
         let mut batch = vec![];
@@ -442,6 +473,9 @@ pub fn gen_script(rng: &mut Rng, programs: Vec<Cmd>, host: HostSel, sc: &ScriptC
             }
             if sc.dups && !dup.is_empty() && !host.is_bridge() {
                 opts.push((3, 4));
+            }
+            if sc.bridge_dups && host.is_bridge() && !dup.is_empty() {
+                opts.push((1, 4));
             }
             if sc.aborts && !abortable.is_empty() {
                 opts.push((5, 5));
@@ -510,8 +544,23 @@ pub fn gen_script(rng: &mut Rng, programs: Vec<Cmd>, host: HostSel, sc: &ScriptC
                     Action::DropAll
                 }
             };
+            if races && deferring && matches!(act, Action::Drop { .. }) {
+                pending_flush = true;
+            }
+            let just_ran: Vec<u32> = match &act {
+                Action::Event(Event::Run(p)) => p.abort_handles(),
+                _ => vec![],
+            };
             apply_to_model(&mut m, &act);
             batch.push(act);
+            // abort before the command is polled for the first time (only a holder of the bare
+            // command can do that): deterministic, nothing has run yet
+            if host.is_direct() && sc.aborts && sc.abort_before_poll && !just_ran.is_empty() && rng.chance(1, 5) {
+                let h = just_ran[rng.usize_below(just_ran.len())];
+                let a = Action::Event(Event::Abort(h));
+                apply_to_model(&mut m, &a);
+                batch.push(a);
+            }
         }
         if batch.is_empty() {
             break;
